@@ -431,8 +431,23 @@ func c14FailureUnits(tier string) []Unit {
 		units = append(units, Unit{Sc: &Scenario{Name: fmt.Sprintf("deferred-cycles/recover=%v", rec), Cfg: h.Config{Defer: true, Recover: rec},
 			Prefix: prefixFork, Alphabet: ring.ops(), Depth: 5, Budget: explore.Budget{Provides: 3, Invokes: 2, Others: 1, Rejected: 1}, Allowed: onceEach, Monitors: []explore.Monitor{noPanicMonitor}}})
 	}
+	// option combinations that are only acceptable for some result types
+	// (As with flatten, As with Name/Group on named slices and interfaces),
+	// followed by real executions with non-empty results
+	opt := alpha{scopes: []int{0, 1}, ctors: []*uFunc{fNSflAs, fNSgAs, fNSflAsA, fG1}, export: true, invokes: []*uFunc{iGins, iG, iGI}}
+	for _, rec := range []bool{false, true} {
+		units = append(units, Unit{Sc: &Scenario{Name: fmt.Sprintf("option-combinations-then-executions/recover=%v", rec), Cfg: h.Config{Recover: rec},
+			Prefix: prefixChild, Alphabet: opt.ops(), Depth: 4, Budget: explore.Budget{Provides: 2, Invokes: 2, Rejected: 2}, Allowed: onceEach, Monitors: []explore.Monitor{noPanicMonitor}}})
+	}
 	return units
 }
+
+var (
+	fNSflAs  = u.F("fNSflAs", "", "NS", u.GroupFlat("g", 2), u.As("INS")) // the named slice, not its elements, implements INS
+	fNSflAsA = u.F("fNSflAsA", "", "NS", u.GroupFlat("g", 2), u.As("IA")) // its elements, not the slice, implement IA
+	fNSgAs   = u.F("fNSgAs", "", "NS", u.Group("g"), u.As("INS"))
+	iGins    = u.F("iGins", "{INS*g}", "")
+)
 
 func c14Units(tier string) []Unit {
 	inputs := c14Inputs(tier)
